@@ -1073,7 +1073,7 @@ struct TcpEngine : Engine
 	int64_t budget(std::string const& prop, int tier) const override
 	{
 		if (prop == "C20") return tier ? 150000 : 6000;
-		return tier ? 200000 : 8000;
+		return prop == "C06" ? (tier ? 400000 : 25000) : (tier ? 250000 : 10000);
 	}
 	std::vector<std::string> stub_components() const override
 	{ return {"sim::configuration implementation (fw/net.hpp)", "probe sinks, scripted fault sinks", "writers/readers and all completion handlers", "keyed offered streams as oracle"}; }
